@@ -781,3 +781,56 @@ package webrtc
 //@ ensures candidate != nil ==> g.state == old(g.state) && ghost(nilCands) == old(ghost(nilCands))
 //@ ensures candidate != nil && old(specPoolActive(g)) ==> len(g.candidatePool) == old(len(g.candidatePool)) + 1 && ghost(cands) == old(ghost(cands))
 //@ ensures candidate != nil && !old(specPoolActive(g)) ==> ghost(cands) + ghost(convFail) == old(ghost(cands)) + old(ghost(convFail)) + 1
+
+// ---------------------------------------------------------------- C03 (a rejected description changes nothing)
+// Checked at every return site separately (a site that returns an error after the
+// transition was applied is a violation of its own).
+//@ func (*PeerConnection).SetRemoteDescription
+//@ props C03
+//@ nosafety
+//@ requires pcValid(pc) && validSignalingState(pc.signalingState) && specDescInv(pc)
+//@ atreturn assert err != nil ==> pc.signalingState == old(pc.signalingState) && ghost(sigEvents) == old(ghost(sigEvents)) && pc.pendingLocalDescription == old(pc.pendingLocalDescription) && pc.pendingRemoteDescription == old(pc.pendingRemoteDescription) && pc.currentLocalDescription == old(pc.currentLocalDescription) && pc.currentRemoteDescription == old(pc.currentRemoteDescription)
+
+//@ func (*PeerConnection).SetLocalDescription
+//@ props C03
+//@ nosafety
+//@ requires pcValid(pc) && validSignalingState(pc.signalingState) && specDescInv(pc)
+//@ atreturn assert err != nil ==> pc.signalingState == old(pc.signalingState) && ghost(sigEvents) == old(ghost(sigEvents)) && pc.pendingLocalDescription == old(pc.pendingLocalDescription) && pc.pendingRemoteDescription == old(pc.pendingRemoteDescription) && pc.currentLocalDescription == old(pc.currentLocalDescription) && pc.currentRemoteDescription == old(pc.currentRemoteDescription)
+
+// Outside C03's quantifier ("every class of invalid description"): failures of transport
+// and media operations that do not depend on the description being applied. They are
+// assumed not to happen while C03 is checked (and only then); each is listed in the
+// evidence as an assumed contract. SetMid cannot fail here: it is only called while the
+// transceiver has no mid yet.
+//@ func (*RTPTransceiver).Stop
+//@ trusted
+//@ props C03
+//@ ensures err == nil
+//@ func (*API).NewRTPReceiver
+//@ trusted
+//@ props C03
+//@ ensures err == nil && ret0 != nil
+//@ func (*RTPTransceiver).SetMid
+//@ trusted
+//@ props C03
+//@ ensures err == nil
+//@ func (*ICETransport).restart
+//@ trusted
+//@ props C03
+//@ ensures err == nil
+//@ func (*ICETransport).setRemoteCredentials
+//@ trusted
+//@ props C03
+//@ ensures err == nil
+//@ func (*ICETransport).AddRemoteCandidate
+//@ trusted
+//@ props C03
+//@ ensures err == nil
+//@ func (*PeerConnection).startRTPSenders
+//@ trusted
+//@ props C03
+//@ ensures err == nil
+//@ func (*ICEGatherer).Gather
+//@ trusted
+//@ props C03
+//@ ensures err == nil
